@@ -33,7 +33,16 @@ def dec (j : Json) : R Dec := do
   let s ← str j
   match Dec.ofString? s with
   | some d => pure d
-  | none => throw s!"bad decimal {s}"
+  | none =>
+    -- a well-formed number token that `Decimal::from_str_exact` cannot represent (more than 28 fraction digits or a
+    -- coefficient above 2^96-1): the grammar's number rule fails on it (`Dec.ofToken = none`), see `Ops.loadCase`
+    let cs := match s.toList with | '-' :: r => r | r => r
+    let ip := cs.takeWhile Char.isDigit
+    let wf := !ip.isEmpty && (match cs.dropWhile Char.isDigit with
+      | [] => true
+      | '.' :: fp => !fp.isEmpty && fp.all Char.isDigit
+      | _ => false)
+    if wf then throw s!"unrepresentable decimal {s}" else throw s!"bad decimal {s}"
 
 def path (j : Json) : R Path := do
   let s ← str j
